@@ -24,6 +24,7 @@ import (
 	"sync/atomic"
 	"time"
 
+	"github.com/0xReLogic/Helios/internal/circuitbreaker"
 	"github.com/0xReLogic/Helios/internal/config"
 	"github.com/0xReLogic/Helios/internal/loadbalancer"
 	"github.com/0xReLogic/Helios/internal/ratelimiter"
@@ -252,6 +253,87 @@ func metricsConcurrent(tier string) {
 	}
 }
 
+// recovery under real parallelism: the breaker of a real balancer is tripped, its timeout passes, then g clients send
+// `per` requests each at once; the half-open budget and the success threshold are exactly the number of requests, so
+// the breaker stays half-open until the very last success, every request must be admitted and answered 200, the breaker
+// must be closed afterwards and the next request served.  "wedged": no request returned for 5 s.
+func breakerStress(tier string) {
+	per := 15000
+	if tier == "thorough" {
+		per = 100000
+	}
+	for _, g := range []int{4, 16} {
+		total := g * per
+		c := &config.Config{}
+		c.Server.Port = 8080
+		c.Backends = []config.BackendConfig{{Name: "b1", Address: "http://b1.backend.test:80", Weight: 1}, {Name: "b2", Address: "http://b2.backend.test:80", Weight: 1}}
+		c.LoadBalancer.Strategy = "round_robin"
+		c.CircuitBreaker = config.CircuitBreakerConfig{Enabled: true, MaxRequests: total, FailureThreshold: 1, SuccessThreshold: total, IntervalSeconds: 60, TimeoutSeconds: 1}
+		lb, err := loadbalancer.NewLoadBalancer(c)
+		if err != nil {
+			panic(err)
+		}
+		rt := &countRT{served: make([]int64, 3)}
+		for _, b := range lb.VerifBackends() {
+			b.ReverseProxy.Transport = rt
+		}
+		one := func(want string) int {
+			req := httptest.NewRequest("GET", "http://helios.test/", nil)
+			req.RemoteAddr = "10.3.0.1:4000"
+			req.Header.Set("X-Want", want)
+			rec := httptest.NewRecorder()
+			lb.ServeHTTP(rec, req)
+			return rec.Code
+		}
+		tripped := one("500")
+		blocked := one("200") // open: 503, no backend
+		time.Sleep(1200 * time.Millisecond)
+		var returned, ok200 int64
+		var wg sync.WaitGroup
+		start := make(chan struct{})
+		for w := 0; w < g; w++ {
+			wg.Add(1)
+			go func() {
+				defer wg.Done()
+				<-start
+				for i := 0; i < per; i++ {
+					if one("200") == 200 {
+						atomic.AddInt64(&ok200, 1)
+					}
+					atomic.AddInt64(&returned, 1)
+				}
+			}()
+		}
+		close(start)
+		fin := make(chan struct{})
+		go func() { wg.Wait(); close(fin) }()
+		wedged := false
+		last, lastAt := int64(-1), time.Now()
+	wait:
+		for {
+			select {
+			case <-fin:
+				break wait
+			case <-time.After(200 * time.Millisecond):
+				if r := atomic.LoadInt64(&returned); r != last {
+					last, lastAt = r, time.Now()
+				} else if time.Since(lastAt) > 5*time.Second {
+					wedged = true
+					break wait
+				}
+			}
+		}
+		state, after := "unknown", -1
+		if !wedged {
+			state = map[circuitbreaker.State]string{circuitbreaker.StateClosed: "closed", circuitbreaker.StateOpen: "open", circuitbreaker.StateHalfOpen: "half"}[lb.VerifBreaker().State()]
+			after = one("200")
+			lb.Stop()
+		}
+		emit(map[string]any{"kind": "cbstress", "g": g, "total": total, "tripped": tripped, "blocked": blocked, "returned": atomic.LoadInt64(&returned),
+			"ok": atomic.LoadInt64(&ok200), "wedged": wedged, "state": state, "after": after})
+	}
+}
+
 // jump hash: b(k,1)=0, b(k,n)<n, b(k,n+1) in {b(k,n), n} for keys of the sweep and n = 1..maxN
 func jumpSweep(full bool, maxN int, seed int64) {
 	workers := runtime.GOMAXPROCS(0)
@@ -425,6 +507,8 @@ func main() {
 			affinityConcurrent(tier)
 		case "metconc":
 			metricsConcurrent(tier)
+		case "cbstress":
+			breakerStress(tier)
 		}
 	}
 	out.Flush()
